@@ -26,43 +26,43 @@ macro_rules! elem_to_value {
     };
 }
 
-// @harness h12c_elem_i8 tier=quick props=C12,C15
+// @harness h12c_elem_i8 tier=quick props=C12
 // @bounds none
 // @domain ∀ x∈i8: JsValue::from(TypedArrayElement::Int8(x))
 // @claim a Number equal to x
 elem_to_value!(h12c_elem_i8, i8, Int8, |x| x);
-// @harness h12c_elem_u8 tier=quick props=C12,C15
+// @harness h12c_elem_u8 tier=quick props=C12
 // @bounds none
 // @domain ∀ x∈u8: Uint8 and Uint8Clamped elements
 // @claim a Number equal to x
 elem_to_value!(h12c_elem_u8, u8, Uint8, |x| x);
-// @harness h12c_elem_u8c tier=quick props=C12,C15
+// @harness h12c_elem_u8c tier=quick props=C12
 // @bounds none
 // @domain ∀ x∈u8: JsValue::from(TypedArrayElement::Uint8Clamped(ClampedU8(x)))
 // @claim a Number equal to x
 elem_to_value!(h12c_elem_u8c, u8, Uint8Clamped, |x| ClampedU8(x));
-// @harness h12c_elem_i16 tier=quick props=C12,C15
+// @harness h12c_elem_i16 tier=quick props=C12
 // @bounds none
 // @domain ∀ x∈i16
 // @claim a Number equal to x
 elem_to_value!(h12c_elem_i16, i16, Int16, |x| x);
-// @harness h12c_elem_u16 tier=quick props=C12,C15
+// @harness h12c_elem_u16 tier=quick props=C12
 // @bounds none
 // @domain ∀ x∈u16
 // @claim a Number equal to x
 elem_to_value!(h12c_elem_u16, u16, Uint16, |x| x);
-// @harness h12c_elem_i32 tier=quick props=C12,C15
+// @harness h12c_elem_i32 tier=quick props=C12
 // @bounds none
 // @domain ∀ x∈i32
 // @claim a Number equal to x
 elem_to_value!(h12c_elem_i32, i32, Int32, |x| x);
-// @harness h12c_elem_u32 tier=quick props=C12,C15
+// @harness h12c_elem_u32 tier=quick props=C12
 // @bounds none
 // @domain ∀ x∈u32
 // @claim a Number equal to x (values above i32::MAX included)
 elem_to_value!(h12c_elem_u32, u32, Uint32, |x| x);
 
-// @harness h12c_elem_f64 tier=quick props=C12,C15
+// @harness h12c_elem_f64 tier=quick props=C12
 // @bounds none: all 2^64 bit patterns (what a Float64Array / DataView can hold)
 // @domain ∀ bits∈u64: JsValue::from(TypedArrayElement::Float64(f64::from_bits(bits)))
 // @claim the result is a Float64 Number: NaN for every NaN payload (never a tagged non-number), bit-identical otherwise
@@ -82,7 +82,7 @@ fn h12c_elem_f64() {
     forget(v);
 }
 
-// @harness h12c_elem_f32 tier=quick props=C12,C15
+// @harness h12c_elem_f32 tier=quick props=C12
 // @bounds none: all 2^32 bit patterns
 // @domain ∀ bits∈u32: JsValue::from(TypedArrayElement::Float32(f32::from_bits(bits)))
 // @claim a Float64 Number SameValue to the widened f32 (NaN stays NaN)
